@@ -171,7 +171,8 @@ func (msg MsgInitiateTokenWithdrawal) Validate(ac address.Codec) error {
 		return sdkerrors.ErrInvalidAddress.Wrap("to address cannot be empty")
 	}
 
-	if !msg.Amount.IsValid() || !msg.Amount.IsPositive() {
+	// the L1 withdrawal leaf carries the amount as a 64-bit integer; a larger amount could never be claimed
+	if !msg.Amount.IsValid() || !msg.Amount.IsPositive() || !msg.Amount.Amount.IsUint64() {
 		return ErrInvalidAmount
 	}
 
